@@ -33,3 +33,18 @@ func (l *DefaultLimiter) VerifInFlight() int64 {
 func (l *QueueBlockingLimiter) VerifBacklogLen() int {
 	return int(l.backlog.len())
 }
+
+// VerifWake broadcasts on the limiter's condition so that helper goroutines left waiting on it
+// (after a time-out or cancellation) can finish; used to end a test case cleanly.
+func (l *BlockingLimiter) VerifWake() {
+	l.c.L.Lock()
+	l.c.Broadcast()
+	l.c.L.Unlock()
+}
+
+// VerifWake broadcasts on the limiter's condition (see BlockingLimiter.VerifWake).
+func (l *DeadlineLimiter) VerifWake() {
+	l.c.L.Lock()
+	l.c.Broadcast()
+	l.c.L.Unlock()
+}
